@@ -453,7 +453,7 @@ def run(ctx):
             c.setdefault("assets", ASSETS)
     else:
         cases = corpus()
-        n = 50 if ctx.quick() else 450
+        n = 40 if ctx.quick() else 450
         cases += [gen_case(ctx.rng, 0) for _ in range(n)]
     for i, c in enumerate(cases):
         c["id"] = i
